@@ -89,5 +89,12 @@ func Run(c *hx.Ctx) error {
 		}
 		return nil
 	}
-	return fmt.Errorf("mode not built yet")
+	r := hx.NewRng(c.Seed)
+	n := c.Budget(30, 400)
+	for i := 0; i < n; i++ {
+		if err := runDetHistory(c, r.Fork(), i); err != nil {
+			return err
+		}
+	}
+	return nil
 }
